@@ -95,7 +95,9 @@ class Image:
         # NOTE: For now, only anticipate matrix indexing.
         assert self.indexing == "ijk"[: self.space_dim]
 
-        self.dimensions: list[float] = kwargs.get("dimensions", self.space_dim * [1])
+        self.dimensions: list[float] = list(
+            kwargs.get("dimensions", self.space_dim * [1])
+        )
         """Dimension in the directions corresponding to the indexings."""
 
         self.name = kwargs.get("name", None)
